@@ -65,6 +65,7 @@ REVERTS = [
     ('F69-message-parser-drains', 'c57b8f3', {'C17': ['S17-4:message-parser-drains']}),
     ('F70-key-framing-by-signature-version', '900764d', {'C11': ['key-frame:selected-by-signature-version']}),
     ('F72-iterator-stops-after-refused-framing', '836fe37', {'C17': ['S17-2:illegal-framing-stops-parser']}),
+    ('F73-curve25519-legacy-leading-zero', 'cedd9d8', {'C05': ['S05-11:raw-mpi-only-from-parsed-data'], 'C07': ['S05-11:raw-mpi-only-from-parsed-data']}),
     ('F67-ecdh-zero-padding', '5930fe1', {'C12': ['ecdh:unpad-lower-bound']}),
     ('F68-armor-leading-dashes', 'cfc42e1', {'C10': ['S10-7:leading-text-skipped-to-full-opener']}),
 ]
